@@ -137,6 +137,8 @@ for _i in range(1, 21):
 
 NOTES = (
     "All checks: `/venv/bin/python sa/check.py <id>`; exit 0 held / 1 VIOLATION / 2 ANALYSIS-ERROR (analysis cannot speak). "
+    "A failed obligation is hard (the recognised construct contradicts the clause: VIOLATION) or soft (the rule did not find / could not "
+    "classify the construct: line UNRECOGNISED, exit 2 when nothing hard is found) — DESIGN.md §11. "
     "Thorough tier additionally validates the analysis itself on AST-computed breaking and behaviour-preserving variants of the "
     "current tree (scratch copies under a mkdtemp directory, removed immediately). Known findings: known_findings.json."
 )
